@@ -548,20 +548,30 @@ func (r *Resolver) resolveOneNoCache(ctx context.Context, name, typ string) ([]a
 	// records decide, also when none of them is of the requested type.
 	var ttl uint32 = 300
 	want := strings.TrimSuffix(name, ".")
+	// DNS names are compared without regard to case.
+	owns := func(a dns.RR, name string) bool {
+		return strings.EqualFold(strings.TrimSuffix(a.Name, "."), name)
+	}
+	// Follow the CNAME chain first: the order of the records in the answer
+	// section carries no meaning. The chain cannot be longer than the
+	// answer.
+	for range result.Answer {
+		i := slices.IndexFunc(result.Answer, func(a dns.RR) bool {
+			return a.Type == 5 && owns(a, want)
+		})
+		if i < 0 {
+			break
+		}
+		want = strings.TrimSuffix(result.Answer[i].Data.(string), ".")
+	}
 	for i, a := range result.Answer {
 		// The smallest TTL wins. Zero is a valid TTL (do not cache), not
 		// an unset value.
 		if i == 0 || ttl > a.TTL {
 			ttl = a.TTL
 		}
-		// DNS names are compared without regard to case.
-		owned := strings.EqualFold(strings.TrimSuffix(a.Name, "."), want)
-		if owned && a.Type == dns.RRType(typ) {
+		if owns(a, want) && a.Type == dns.RRType(typ) {
 			res = append(res, a.Data)
-		}
-		if owned && a.Type == 5 { // CNAME
-			want = strings.TrimSuffix(a.Data.(string), ".")
-			continue
 		}
 	}
 	// A negative answer comes with the SOA record of the zone in the
